@@ -96,7 +96,7 @@ theorem takeMsg_unfold (s : Irc) : takeMsg s = takeBody takeMsg s := by
 /-- dropping filter on the head of the fast queue: that message is consumed, and `takeMsg`
 carries on with the rest exactly as if the message had never been there -/
 theorem takeMsg_drop_fast (s : Irc) (m : Msg) (rest : List Msg) (hf : s.fast = m :: rest)
-    (n : Nat) (hd : runFilters s.cfg.filters s.nextOid m = (none, n)) :
+    (n : Nat) (hd : runFilters s.chain s.nextOid m = (none, n)) :
     takeMsg s =
       ((takeMsg { s with fast := rest, nextOid := n }).1,
        .dropped true m s.now :: (takeMsg { s with fast := rest, nextOid := n }).2) := by
@@ -104,8 +104,8 @@ theorem takeMsg_drop_fast (s : Irc) (m : Msg) (rest : List Msg) (hf : s.fast = m
   unfold takeBody
   simp only [hf]
   have : deliver { s with fast := rest } m = ({ s with fast := rest, nextOid := n }, .dropped) := by
-    unfold deliver
-    simp only [hd]
+    have hc : Irc.chain { s with fast := rest } = s.chain := rfl
+    simp only [deliver, hc, hd]
   simp only [this]
 
 /-- dropping filter on a message taken from the regular queue: exactly that message is consumed;
@@ -114,7 +114,7 @@ interval, as they would have had the message been sent) -/
 theorem takeMsg_drop_queue (s : Irc) (hf : s.fast = []) (hq : s.queue.isEmpty = false)
     (ht : s.lastTake + s.cfg.throttle < s.now) (q' : Queue) (m : Msg)
     (hdq : s.queue.dequeue s.cfg.joinLimit s.now = (q', .msg m))
-    (n : Nat) (hd : runFilters s.cfg.filters s.nextOid m = (none, n)) :
+    (n : Nat) (hd : runFilters s.chain s.nextOid m = (none, n)) :
     takeMsg s =
       ((takeMsg { s with lastTake := s.now, queue := q', nextOid := n }).1,
        .dropped false m s.now :: (takeMsg { s with lastTake := s.now, queue := q', nextOid := n }).2) := by
@@ -123,8 +123,8 @@ theorem takeMsg_drop_queue (s : Irc) (hf : s.fast = []) (hq : s.queue.isEmpty = 
   have hnle : ¬ s.now ≤ s.lastTake + s.cfg.throttle := Nat.not_le.mpr ht
   have : deliver { s with lastTake := s.now, queue := q' } m
       = ({ s with lastTake := s.now, queue := q', nextOid := n }, .dropped) := by
-    unfold deliver
-    simp only [hd]
+    have hc : Irc.chain { s with lastTake := s.now, queue := q' } = s.chain := rfl
+    simp only [deliver, hc, hd]
   simp only [hf] at this
   simp only [hf, hq, Bool.not_false, if_true, hnle, if_false, hdq, this]
 
@@ -215,7 +215,7 @@ theorem reset_echo (s : Irc) : (reset s).1.echoed = s.echoed ∧ ∀ e ∈ (rese
   · exact ⟨rfl, by intro e h; simp [killEvents] at h; rcases h with h | h <;> (subst h; rfl)⟩
   · obtain ⟨a, b⟩ := sendConnect_echo s.cfg.connectMsgs
       { s with lastTake := 0, afterConnect := false, lastPing := s.now, outstandingPing := false,
-               echoAcked := false, queue := Queue.empty, fast := [] }
+               echoAcked := false, labelAcked := false, queue := Queue.empty, fast := [] }
     refine ⟨a, ?_⟩
     intro e he
     rcases mem_cons.mp he with h | h
@@ -344,6 +344,7 @@ theorem step_echo (s : Irc) (op : Op) : EchoOk s (step s op) := by
   | connected => exact EchoOk.of_plain rfl (by intro e h; cases h)
   | pong => exact EchoOk.of_plain rfl (by intro e h; cases h)
   | capEcho b => exact EchoOk.of_plain rfl (by intro e h; cases h)
+  | capLabel b => exact EchoOk.of_plain rfl (by intro e h; cases h)
   | config c => exact EchoOk.of_plain rfl (by intro e h; simp at h; subst h; rfl)
 
 /-- along a run the tagged objects stay internal ones -/
@@ -472,6 +473,7 @@ theorem step_noConfig (s : Irc) (op : Op) (ho : op.isConfig = false) :
   | connected => cases he
   | pong => cases he
   | capEcho b => cases he
+  | capLabel b => cases he
   | config c => cases ho
 
 theorem run_noConfig : ∀ (ops : List Op) (s : Irc), (∀ op ∈ ops, op.isConfig = false) →
